@@ -85,6 +85,8 @@ inductive Pc
   | d1 | d2 | d3 | d4
   -- Tx.commit
   | c0 | c2 | c3 | c4 | c5 | c6 | c7 | c8 | c9 | c10 | c11 | c12 | cend
+  -- store.gcRecord / flushRecord / the visit of Keys and Scan: one record, no lookup
+  | g1 | g2 | g3 | g4 | g5 | g6 | g7 | g8 | g9 | g10 | g11 | g12 | g13
 deriving DecidableEq, Repr, Inhabited
 
 /-- where `acquire` returns to -/
@@ -116,6 +118,7 @@ def modeOf (w : Bool) : Mode := if w then .w else .r
 /-- what a command may do next (the code outside tx.go) -/
 inductive Call
   | begin (plan : List PlanItem)          -- `exec`: new Tx; lockKeys / lockKey / rLockKey in key order
+  | mini (r : Rec)                        -- gcRecord(m) / flushRecord(m) / a visit of Keys, Scan: m from an older `records()`
   | reacq (k : Key) (w ph : Bool)         -- writeKey / readKey on a key that is already locked
   | newKey (k : Key)
   | delKey (k : Key)
@@ -127,6 +130,8 @@ structure Choice where
   call  : Call := .commit
   fresh : Rec := 0
   tryOk : Bool := true
+  dead  : Bool := false     -- gcRecord: `m.expired(now)` (time is not modelled)
+  hvNew : Bool := true      -- gc / flush / scan: whether the value is in memory afterwards (evicted / loaded)
 deriving Repr, Inhabited
 
 /-- strictly increasing key names: what `sort.Strings` over the keys of the `mode` map produces -/
@@ -189,10 +194,16 @@ def tstep (s : Shared) (t : Tid) (l : Loc) (ch : Choice) : Out :=
     | .begin plan =>
       if sortedPlan plan then some (s, nextPlan { l with todo := plan, held := [], panicked := false }, some (.begin t))
       else none
+    | .mini r =>
+      -- the record comes out of a snapshot `s.records()` taken earlier: any record that was ever allocated
+      match assoc s.names r with
+      | some k => some (s, { l with pc := .g1, m := r, key := k, held := [], okcur := false }, some (.begin t))
+      | none => none
     | _ => none
   | .idle =>
     match ch.call with
     | .begin _ => none
+    | .mini _ => none
     | .reacq k w ph =>
       if holdsName l k then some (s, { l with pc := .a1, key := k, write := w, ph := ph, ret := .body }, none) else none
     | .newKey k =>
@@ -329,6 +340,38 @@ def tstep (s : Shared) (t : Tid) (l : Loc) (ch : Choice) : Out :=
     let s := s.setMu l.cur.rid (s.mu l.cur.rid).unlock
     some (s, commitNext s l, none)
   | .cend => -- tx.lockedMetas = tx.lockedMetas[:0]; verifTrace("end")
+    some (s, {}, some (.fin t))
+  ------------------------------------------------------------------ gcRecord / flushRecord / scan visit (store.go, key.go)
+  | .g1 =>  -- verifTrace("wait")
+    some (s, { l with pc := .g2 }, some (.wait t l.key l.m .w))
+  | .g2 =>  -- m.Lock()
+    if (s.mu l.m).canLock then some (s.setMu l.m ((s.mu l.m).lock t), { l with pc := .g3 }, none) else none
+  | .g3 =>  -- verifTrace("lock")
+    some (s, { l with pc := .g4 }, some (.lock t l.key l.m .w))
+  | .g4 =>  -- current: s.mu.RLock()
+    if s.smu.canRLock then some ({ s with smu := s.smu.rlock t }, { l with pc := .g5 }, none) else none
+  | .g5 =>  -- cur, ok := s.metadata.Get(m.key.Name); verifTrace("current", ok && cur == m)   (the tracer writes `valid`)
+    let ok := assoc s.index l.key == some l.m
+    some (s, { l with pc := .g6, okcur := ok }, some (.valid t l.key l.m ok))
+  | .g6 =>  -- s.mu.RUnlock(); if !current { return }; if m.expired(now) || !m.isOk() {...}
+    let s := { s with smu := s.smu.runlock t }
+    if !l.okcur then some (s, { l with pc := .g11 }, none)
+    else if ch.dead || !(s.flag l.m).ok then some (s, { l with pc := .g7 }, none)     -- gcRecord: unlink the dead key
+    else some (s, { l with pc := .g10 }, none)
+  | .g7 =>  -- m.unpersist(s.ss); s.mu.Lock()
+    if s.smu.canLock then some ({ s with smu := s.smu.lock t }, { l with pc := .g8 }, none) else none
+  | .g8 =>  -- s.metadata.Delete(m.key.Name); verifTrace("unlink")
+    some ({ s with index := erase s.index l.key }, { l with pc := .g9 }, some (.unlink t l.key l.m))
+  | .g9 =>  -- s.mu.Unlock(); return
+    some ({ s with smu := s.smu.unlock }, { l with pc := .g10 }, none)
+  | .g10 => -- persist / reset / removeFromMemory / (scan) load the value; the tracer writes `commit` for a validated mini transaction
+    let f := s.flag l.m
+    some ({ s with flags := setD s.flags l.m { f with hasValue := ch.hvNew } }, { l with pc := .g11 }, some (.commit t))
+  | .g11 => -- deferred verifTrace("unlock")
+    some (s, { l with pc := .g12 }, some (.unlock t l.m))
+  | .g12 => -- deferred m.Unlock()
+    some (s.setMu l.m (s.mu l.m).unlock, { l with pc := .g13 }, none)
+  | .g13 => -- (the tracer writes `fin`)
     some (s, {}, some (.fin t))
 
 /-- the whole program: shared state + the threads that are inside a command (all others are at `init`) -/
